@@ -5,7 +5,11 @@
 //        7 ValueMap flag(store_true) 8 ValueMap flag(store_false)  (mapped_value.h factory flag(ValueMap&, FlagAction))
 //   impl?/dflt? : 0 | 1 len bytes
 //   op  1 hasExcl [nExcl ids..] nPairs { optId len bytes }*  |  2 (assignDefaults)  |  3 (fresh ParsedOptions)
-// Observation per op 1/2: err(0 | 1+type key len bytes) fault(0) parsed.size { state count varLen var.. }*
+//       4 k ids..   parsed.add("o<id>") for each id - any name: an option of the context or a FOREIGN name (id >= nopts); no observation
+//       5 nPairs { optId len bytes }*   parsed.assign(source of a SECOND OptionContext) on the SAME ParsedOptions object: the second context
+//         ("one ParsedOptions shared by two contexts reading the same command line") holds 6 plain std::string options o<nopts>..o<nopts+5>;
+//         pairs naming other ids are dropped. Afterwards the ParsedOptions holds names that are not options of the first context.
+// Observation per op 1/2/5: err(0 | 1+type key len bytes) fault(0) parsed.size { state count varLen var.. }*
 #include "common.h"
 #include <memory>
 #include <deque>
@@ -75,6 +79,16 @@ int main() {
 			ctx.add(g);
 		}
 		catch (const std::exception&) { o.add(-998); o.flush(); continue; }
+		// the second context: FOREIGN plain string options (names continue the numbering of the first context)
+		const size_t nForeign = 6;
+		std::deque<std::string> F(nForeign);
+		Po::OptionGroup g2;
+		Po::OptionContext ctx2("other");
+		try {
+			for (size_t k = 0; k != nForeign; ++k) { g2.addOptions()(optName((ll)(n + k)).c_str(), Po::storeTo(F[k]), ""); }
+			ctx2.add(g2);
+		}
+		catch (const std::exception&) { o.add(-998); o.flush(); continue; }
 		std::unique_ptr<Po::ParsedOptions> parsed(new Po::ParsedOptions());
 		while (c.more()) {
 			ll op = c.next();
@@ -99,11 +113,23 @@ int main() {
 				catch (const std::exception&) { et = 9; }
 			}
 			else if (op == 3) { parsed.reset(new Po::ParsedOptions()); continue; }
+			else if (op == 4) { size_t k = (size_t)c.next(); for (size_t j = 0; j != k; ++j) parsed->add(optName(c.next())); continue; }
+			else if (op == 5) {
+				size_t np = (size_t)c.next();
+				Po::ParsedValues pv(ctx2);
+				for (size_t k = 0; k != np; ++k) {
+					size_t id = (size_t)c.next(); std::string val = c.bytes((size_t)c.next());
+					if (id >= n && id < n + nForeign) pv.add(*(ctx2.begin() + (id - n)), val);
+				}
+				try { parsed->assign(pv, 0); }
+				catch (const Po::ValueError& e) { et = 1 + (int)e.type(); ek = e.key(); ev = e.value(); }
+				catch (const std::exception&) { et = 9; }
+			}
 			else break;
 			o.add(et);
 			if (et) {
 				ll id = -1;
-				for (size_t k = 0; k != n; ++k) if (optName((ll)k) == ek) id = (ll)k;
+				for (size_t k = 0; k != n + nForeign; ++k) if (optName((ll)k) == ek) id = (ll)k;
 				o.add(id); o.add((ll)ev.size()); o.addBytes(ev.data(), ev.size());
 			}
 			o.add(0);
